@@ -819,7 +819,7 @@ int main(int argc, char** argv) {
   bool complete = counter(CNT_SKIPPED) == 0 && counter(CNT_REFCRASH) == 0;
   std::vector<std::string> samples;
   { Data d = INITS[n_empty + 1].d; RECS.clear(); RECS.push_back(Rec{-1, -1});
-    samples.push_back(J().str("init", init_name(INITS[0])).arr("history", {jstr(op_name(OPS[0])), jstr(op_name(OPS[2])), jstr("add_to_integer_space_dimensions({A})"), jstr("solve()")}).done());
+    samples.push_back(J().str("init", init_name(INITS[0])).arr("history", {jstr(op_name(OPS[2])), jstr("add_to_integer_space_dimensions({A})"), jstr("solve()")}).done());
     samples.push_back(J().str("init", init_name(INITS[n_empty + 1])).arr("history", {jstr("solve()"), jstr(op_name(OPS[3])), jstr("is_satisfiable()")}).done());
     (void)d; }
   J extra; extra.num("items", ITEMS.size()).num("initial_configurations", INITS.size()).num("alphabet", OPS.size())
